@@ -19,6 +19,7 @@ type appCap struct {
 	client   *capnp.Client // the harness' own reference
 	shutdown int
 	dropped  bool // harness reference released
+	handedOver bool // the harness' only reference went into a result message
 }
 
 type appCall struct {
@@ -48,7 +49,7 @@ func (a *appCap) Shutdown() {
 		r.s.Fail("export_early_drop", "export.go:(*Conn).releaseExport", fmt.Sprintf("application capability %d was shut down while the application still holds its own reference", a.id))
 		return
 	}
-	if r.connOpen() && r.peer != nil {
+	if r.connOpen() && r.peer != nil && !r.hostile && r.faultsPlanned == 0 { // (after a fault the Conn may be tearing itself down)
 		for _, e := range r.peer.heldExports() {
 			if e.appID == a.id {
 				r.s.Fail("export_early_drop", "export.go:(*Conn).releaseExport", fmt.Sprintf("application capability %d was released while the peer still holds %d reference(s) on export %d and the connection is open", a.id, e.refs, e.id))
@@ -125,9 +126,18 @@ func (r *run) appImpl(a *appCap, ctx context.Context, call *server.Call) error {
 	switch {
 	case flags&fRetFresh != 0:
 		n := r.newAppCap()
-		put(n.client.AddRef(), n.id)
+		if token%2 == 0 {
+			// the application hands its only reference over with the result: from now on the
+			// connection's tables decide when the capability is shut down (Shutdown then runs
+			// inside Conn code: handleRelease, handleFinish, answer teardown, shutdown)
+			n.dropped, n.handedOver = true, true
+			put(n.client, n.id)
+			s.Probe("fresh_capability_owned_by_the_connection")
+		} else {
+			put(n.client.AddRef(), n.id)
+		}
 		s.Probe("return_with_fresh_capability")
-	case flags&fRetBoot != 0:
+	case flags&fRetBoot != 0 && !r.apps[0].handedOver:
 		put(r.apps[0].client.AddRef(), 0)
 	case flags&fRetParam != 0 && param != nil:
 		appID := -1
